@@ -403,7 +403,8 @@ func ReadResponse(br *bufio.Reader, reqMethod string, keep bool) *Msg {
 		return m
 	}
 	switch {
-	case reqMethod == "HEAD" || m.Status/100 == 1 || m.Status == 204 || m.Status == 304:
+	case reqMethod == "HEAD" || m.Status/100 == 1 || m.Status == 204 || m.Status == 304 ||
+		(reqMethod == "CONNECT" && m.Status/100 == 2):
 		m.Framing = "n"
 	case HasToken(m.Hdrs, "Transfer-Encoding", "chunked"):
 		m.Framing = "k"
